@@ -463,8 +463,10 @@ func runRealWorker() {
 		w.WriteHeader(200)
 		w.Write([]byte(fmt.Sprintf("pid=%d token=%s start=%d end=%d", os.Getpid(), r.URL.Query().Get("token"), t0, time.Now().UnixNano())))
 	}))
-	zns.Start("")
-	os.Exit(1)
+	// like cmd/zinc-playground: when Start comes back with an error the program prints it and ends normally (exit status 0)
+	if err := zns.Start(""); err != nil {
+		fmt.Printf("启动服务器时发生异常：%s\n", err.Error())
+	}
 }
 
 // `<self> realmaster <port> <init> <max> <timeout>`: the REAL master with REAL worker processes
@@ -614,6 +616,11 @@ func runReal(in map[string]interface{}) map[string]interface{} {
 					resps = append(resps, rp)
 					rmu.Unlock()
 				}()
+			}
+		case "hangup":
+			// a client that connects and leaves without a request: the worker that accepted it gives up and ends
+			if c, err := net.DialTimeout("tcp", fmt.Sprintf("127.0.0.1:%d", port), 2*time.Second); err == nil {
+				c.Close()
 			}
 		case "wait":
 			time.Sleep(time.Duration(num(op["ms"])) * time.Millisecond)
